@@ -49,6 +49,10 @@ func checkRuntime(c *Ctx, prop string) {
 	}
 	if prop == "C09" {
 		rtReEnable(c, c.scale(40, 1000))
+		// ez is the library's own user of DelayInitialVerification + CallGlobalCallbacksAfterVerificationEnabled: its
+		// re-stack with the file happens while the delay is in force, so no global callback may see it - whether or
+		// not the file is watched (a slice of the C18 stream; its callback and Verify-receiver oracles apply)
+		runC18(c)
 	}
 	if prop == "C07" || prop == "C04" {
 		// (C04: a rejected update's blocking report returns the error also when the watcher sits behind a wrapper)
